@@ -242,8 +242,31 @@ def shared_objects(rep, rnd, tier):
             if got != want:
                 rep.violation('property', 'compress on a packet descriptor already used by other rules gives %s, on a fresh one %s' % (str(got)[:80], str(want)[:80]),
                               dict(layer='history', op='compress-shared', stack=stack, packet=pkt.hex(), rule=n_rule(r)))
+            # the Buffer compress returns is the caller's: editing it in place must not reach the packet descriptor or the rule
+            # (theorem c16_compress_fresh: the model returns a new object; here: whatever object the code returns, no input changes)
+            res_ = impl_outcome(lambda: compress(pd, r))
+            if res_[0] == 'OK' and isinstance(res_[1], Buffer):
+                bufs, before = snap([pd, r])
+                if any(res_[1] is x for x in bufs):
+                    rep.drift += 1
+                    rep.hist['shared:compress-result-is-an-input-object'] = rep.hist.get('shared:compress-result-is-an-input-object', 0) + 1
+                impl_outcome(lambda: (res_[1].shift(-5, inplace=True), res_[1].pad(L if res_[1].padding is R else R, inplace=True), res_[1].__setitem__(slice(0, 1), mk('1'))))
+                ch = changed(bufs, before)
+                rep.count('shared:edit-result-of-compress', key=('shr', i, id(r)))
+                if ch:
+                    rep.violation('property', 'editing the SCHC packet returned by compress in place changed a Buffer of the packet descriptor or the rule: %r -> %r' % ch[0],
+                                  dict(layer='history', op='compress-result-aliases-input', stack=stack, packet=pkt.hex(), rule=n_rule(r)))
             if got[0] == 'OK' and isinstance(got[1], str):
                 sb = mk(got[1], R)
+                res_ = impl_outcome(lambda: decompress(sb, r))
+                if res_[0] == 'OK' and isinstance(res_[1], Buffer):
+                    bufs, before = snap([sb, r])
+                    impl_outcome(lambda: (res_[1].shift(-5, inplace=True), res_[1].pad(L if res_[1].padding is R else R, inplace=True), res_[1].__setitem__(slice(0, 1), mk('1'))))
+                    ch = changed(bufs, before)
+                    rep.count('shared:edit-result-of-decompress', key=('shrd', i, id(r)))
+                    if ch:
+                        rep.violation('property', 'editing the packet returned by decompress in place changed the SCHC packet or a Buffer of the rule: %r -> %r' % ch[0],
+                                      dict(layer='history', op='decompress-result-aliases-input', schc=got[1], rule=n_rule(r)))
                 bufs, before = snap([sb, r])
                 d1 = obs_bits(with_timeout(lambda: decompress(sb, r)))
                 ch = changed(bufs, before)
